@@ -54,6 +54,7 @@ func Gen(t *rapid.T) Case {
 	c.RealmCtx = rapid.IntRange(0, 2).Draw(t, "realmctx") == 0
 	c.AuthErr = rapid.SampledFrom([]string{"unauth", "unauth", "plain", "forbidden"}).Draw(t, "autherr")
 	c.LateResponder = rapid.IntRange(0, 2).Draw(t, "late-responder") == 0
+	c.SharedResults = rapid.IntRange(0, 2).Draw(t, "shared-results") == 0
 	nops := rapid.IntRange(1, 4).Draw(t, "nops")
 	for i := 0; i < nops; i++ {
 		op := Op{Method: rapid.SampledFrom(methods).Draw(t, "method")}
@@ -223,6 +224,17 @@ func Classify(c Case) (bool, []string) {
 	}
 	if c.LateResponder {
 		l["error responder installed after the handler was built"] = true
+	}
+	if c.SharedResults {
+		n := 0
+		for _, rq := range c.Reqs {
+			if rq.Outcome == "notimpl" || rq.Outcome == "mwerror" {
+				n++
+			}
+		}
+		if n >= 2 {
+			l["one middleware.Error / NotImplemented value returned for several requests"] = true
+		}
 	}
 	out := make([]string, 0, len(l))
 	for k := range l {
